@@ -1,8 +1,13 @@
 //! C09 — the fusion pass. Families:
 //!   opt   : real (before, after) listings of every chunk  vs  Model.Optimize.optimize
+//!   optworld : a real template SET registered with the pass off and on; Model.OptWorld.opt_world
+//!           of the finalized unoptimised world must be the finalized optimised world, the
+//!           hypotheses of C09_optimize_world_correct must hold for it, and (World0 subset) the
+//!           model VM must render both worlds like the engine
 //! Oracle: rendering with the pass on and off gives the same text / fails together.
 use serde_json::json;
-use tera::verif::{VInstr, chunk_listings, set_optimize};
+use tera::verif::{VInstr, chunk_listings, component_listings, set_optimize, template_listing, Listing, TemplateListing};
+use tvh::galvm::{ctx_in_subset, gal_code, gal_ctx, gal_template, in_w0_subset};
 use tera::{Context, Delimiters, Map, Tera, Value};
 use tvh::*;
 
@@ -157,6 +162,238 @@ fn kf_for(ctxname: &str) -> Option<&'static str> {
     if ctxname.contains("undef-in-map") { Some("writepath:undefined-stored-in-map") } else { None }
 }
 
+
+// ---------------------------------------------------------------------------------------------
+// family optworld
+
+struct SetCase {
+    label: String,
+    templates: Vec<(String, String)>,
+}
+
+/// base / mid / child chain with blocks, super(), an include (also inside a loop), loops over
+/// attribute paths: the same shape as harness/src/bin/c03.rs `gen_set`, with more variable paths
+/// so that block, include and loop-body chunks are really fused.
+fn gen_set(rng: &mut Rng, k: usize) -> SetCase {
+    let blk = |rng: &mut Rng, name: &str, lvl: usize| -> String {
+        let body = match rng.below(7) {
+            0 => format!("{name}{lvl}{{{{ a.x.x }}}}"),
+            1 => format!("{name}{lvl}{{{{ super() }}}}{{{{ a.y }}}}"),
+            2 => format!("{{{{ super() }}}}{name}{lvl}{{{{ c }}}}"),
+            3 => format!("{name}{lvl}{{% set v = a.x %}}{{{{ v.x }}}}"),
+            4 => format!("{{% for i in b %}}{name}{{{{ i.x }}}}{{{{ super() }}}}{{% endfor %}}"),
+            5 => format!("{{% for i in b %}}{{% if i.y %}}{{{{ i.y.z }}}}{{% break %}}{{% endif %}}{{{{ i.x }}}}{{% endfor %}}"),
+            _ => format!("{{% for i in b %}}{name}{{{{ i.x }}}}{{% endfor %}}"),
+        };
+        format!("{{% block {name} %}}{body}{{% endblock %}}")
+    };
+    let inc_body = match rng.below(5) {
+        0 => "I{{ c }}{{ a.x.x }}".to_string(),
+        1 => "I{{ v }}{% set v = 9 %}{{ v }}".to_string(),
+        2 => "I{% for i in b %}{{ i.x }}{{ w.x }}{% endfor %}".to_string(),
+        3 => "I{% for k, v in a %}{{ k }}{% if v.x %}{{ v.x }}{% endif %}{% endfor %}".to_string(),
+        _ => "I{{ a.y }}{{ g }}".to_string(),
+    };
+    let base = format!(
+        "B[{{% set v = 1 %}}{{% set_global g = 2 %}}{}|{}{}{{{{ v }}}}{{% include \"inc\" %}}]",
+        "{% block a %}a0{{ c }}{{ a.x.y.z }}{% block n %}n0{{ a.y }}{% endblock %}{% endblock %}",
+        "{% filter upper %}{% block b %}b0{% endblock %}{% endfilter %}",
+        if rng.chance(1, 2) { "{% for w in b %}{% include \"inc\" %}{{ w.x }}{% endfor %}" } else { "" },
+    );
+    let mid = format!("{{% extends \"base\" %}}{}{}", blk(rng, "a", 1), if rng.chance(1, 2) { blk(rng, "n", 1) } else { String::new() });
+    let child = format!("{{% extends \"mid\" %}}{}{}", blk(rng, "b", 2), if rng.chance(1, 2) { blk(rng, "a", 2) } else { String::new() });
+    SetCase {
+        label: format!("set#{k}"),
+        templates: vec![("inc".into(), inc_body), ("base".into(), base), ("mid".into(), mid), ("child".into(), child)],
+    }
+}
+
+/// sets outside the World0 subset (components, arithmetic, other filters): translation
+/// validation and side conditions only
+fn hand_sets() -> Vec<SetCase> {
+    let v = |l: &[(&str, &str)]| l.iter().map(|(a, b)| (a.to_string(), b.to_string())).collect::<Vec<_>>();
+    vec![
+        SetCase {
+            label: "hand:components".into(),
+            templates: v(&[
+                ("lib.html", "{% component card(title, n=1) %}<h>{{ title.x }}</h>{{ n + 1 }}{% for i in title.l %}{{ i.y }}{% endfor %}{{ body }}{% endcomponent card %}{% component hello(val=1) %}{{ val }}{% endcomponent hello %}"),
+                ("page.html", "{{ <hello val={a.x.x}/> }}{% <card title={a}> %}in {{ b.y }}{% </card> %}{% for r in b %}{{ <hello val={r.x}/> }}{% endfor %}"),
+            ]),
+        },
+        SetCase {
+            label: "hand:arith-inherit".into(),
+            templates: v(&[
+                ("p.html", "{% block t %}{{ a.x.x + 1 }}{% endblock %}{% for i in b %}{{ i.x | default(value=a.y) | upper }}{% endfor %}"),
+                ("c.html", "{% extends \"p.html\" %}{% block t %}{{ super() }}{{ a.y * 2 }}{% if a.x.y %}{{ a.x.y.z }}{% endif %}{% endblock %}"),
+            ]),
+        },
+        SetCase {
+            label: "hand:include-chain".into(),
+            templates: v(&[
+                ("i2", "{% for k, v in a %}{{ k }}={{ v.x }}{% endfor %}"),
+                ("i1", "{{ w.x }}{% include \"i2\" %}{{ w.y.z }}"),
+                ("top", "{% for w in b %}{% include \"i1\" %}{% else %}{{ a.x.x }}{% endfor %}{{ c }}"),
+            ]),
+        },
+    ]
+}
+
+fn mk(entries: Vec<(&str, Value)>) -> Value {
+    let mut mm = Map::new();
+    for (k, v) in entries {
+        mm.insert(k.to_string().into(), v);
+    }
+    Value::from(mm)
+}
+
+fn set_contexts() -> Vec<(String, Vec<(String, Value)>)> {
+    let mut out = Vec::new();
+    for (name, leaf) in [("int", Value::from(1u64)), ("str", Value::from("<s&>")), ("none", Value::none())] {
+        let inner = mk(vec![("z", leaf.clone()), ("x", Value::from(vec![leaf.clone(), Value::from(2u64)]))]);
+        let a = mk(vec![("x", mk(vec![("y", inner.clone()), ("x", leaf.clone())])), ("y", leaf.clone())]);
+        let rows = Value::from(vec![
+            mk(vec![("x", Value::from("r1")), ("y", leaf.clone())]),
+            mk(vec![("x", Value::from(2u64)), ("y", mk(vec![("z", Value::from(true))]))]),
+            mk(vec![("x", Value::none())]),
+        ]);
+        out.push((format!("abc={name}"), vec![("a".to_string(), a), ("b".to_string(), rows), ("c".to_string(), leaf.clone())]));
+    }
+    out.push(("empty".into(), vec![]));
+    out
+}
+
+struct WorldListing {
+    tera: Tera,
+    templates: Vec<TemplateListing>,
+    components: Vec<(String, String, Listing)>,
+}
+
+/// register the set with the pass on or off and read back what the VM would run
+fn register(templates: &[(String, String)], optimize: bool) -> Option<WorldListing> {
+    set_optimize(optimize);
+    let mut tera = Tera::default();
+    tera.autoescape_on(vec![".html"]);
+    let r = guarded(|| tera.add_raw_templates(templates.to_vec()));
+    set_optimize(true);
+    if !matches!(r, Outcome::Ok(_)) {
+        return None;
+    }
+    let mut tls = Vec::new();
+    for (n, _) in templates {
+        tls.push(template_listing(&tera, n)?);
+    }
+    let components = component_listings(&tera);
+    Some(WorldListing { tera, templates: tls, components })
+}
+
+fn gal_world(w: &WorldListing) -> (String, String) {
+    let gt: Vec<String> = w
+        .templates
+        .iter()
+        .map(|tl| {
+            let root = w.templates.iter().find(|x| x.name == tl.root).map(|x| x.chunk.clone()).unwrap_or_else(|| tl.chunk.clone());
+            format!("({}, {})", gal_str(&tl.name), gal_template(tl, &root))
+        })
+        .collect();
+    let gc: Vec<String> = w.components.iter().map(|(n, _, l)| format!("({}, {})", gal_str(n), gal_code(l))).collect();
+    (format!("[{}]", gt.join("; ")), format!("[{}]", gc.join("; ")))
+}
+
+fn count_fused(w: &WorldListing) -> usize {
+    let f = |l: &Listing| l.iter().filter(|(i, _)| matches!(i.op, "LoadPath" | "WritePath")).count();
+    w.templates.iter().map(|t| f(&t.chunk) + t.lineage.iter().map(|(_, cs)| cs.iter().map(f).sum::<usize>()).sum::<usize>()).sum::<usize>()
+        + w.components.iter().map(|(_, _, l)| f(l)).sum::<usize>()
+}
+
+fn optworld_family(args: &Args, rng: &mut Rng, meta: &mut Meta) {
+    let thorough = args.tier == "thorough";
+    let hdr = "From TeraV Require Import Model.Value Model.Instr Model.VM Corr.CorrC09.";
+    let mut sink = Sink::new(&args.out, "optworld", hdr, "check_optworld");
+    sink.shard_cap_set(3);
+    let mut sets = hand_sets();
+    let n_sets = if thorough { 120 } else { 30 };
+    for k in 0..n_sets {
+        sets.push(gen_set(rng, k));
+    }
+    let ctxs = set_contexts();
+    let (mut rejected, mut renders, mut in_subset) = (0usize, 0usize, 0usize);
+    for set in &sets {
+        let (Some(off), Some(on)) = (register(&set.templates, false), register(&set.templates, true)) else {
+            rejected += 1;
+            continue;
+        };
+        if count_fused(&off) != 0 {
+            meta.oracle_fail("a chunk registered with the pass off contains a fused instruction", None, json!({"set": set.templates}));
+        }
+        let fused = count_fused(&on);
+        let subset = off.templates.iter().all(|tl| in_w0_subset(&tl.chunk) && tl.lineage.iter().all(|(_, cs)| cs.iter().all(in_w0_subset)))
+            && off.components.is_empty();
+        let mut grs = Vec::new();
+        let mut jrs = Vec::new();
+        for (cname, c) in ctxs.iter().take(if thorough { 4 } else { 2 }) {
+            let mut ctx = Context::new();
+            for (k, v) in c {
+                ctx.insert_value(k.clone(), v.clone());
+            }
+            for tl in &on.templates {
+                let mut targets: Vec<Option<String>> = vec![None];
+                for (b, _) in &tl.lineage {
+                    // render_block of a block nested in a filter section is C03/C04's known finding
+                    if b != "b" {
+                        targets.push(Some(b.clone()));
+                    }
+                }
+                for blk in targets {
+                    let run = |t: &Tera| match &blk {
+                        None => guarded(|| t.render(&tl.name, &ctx)),
+                        Some(b) => guarded(|| t.render_block(&tl.name, b, &ctx)),
+                    };
+                    let r_on = run(&on.tera);
+                    let r_off = run(&off.tera);
+                    meta.oracle_checks += 1;
+                    renders += 1;
+                    if !same(&r_on, &r_off) {
+                        meta.oracle_fail(
+                            "set renders differently when registered with the fusion pass on vs off",
+                            None,
+                            json!({"set": set.templates, "entry": tl.name, "block": blk, "context": cname,
+                                "on": r_on.json(|s| json!(s)), "off": r_off.json(|s| json!(s))}),
+                        );
+                    }
+                    if r_on.is_panic() || r_off.is_panic() {
+                        meta.oracle_fail("panic while rendering a set", None, json!({"set": set.templates, "entry": tl.name}));
+                    }
+                    if subset && ctx_in_subset(c) {
+                        grs.push(format!(
+                            "{{| or_entry := {}; or_block := {}; or_ctx := {}; or_impl := {} |}}",
+                            gal_str(&tl.name), gal_opt(&blk, |b| gal_str(b)), gal_ctx(c), r_on.gal(|s| gal_str(s))
+                        ));
+                        jrs.push(json!({"entry": tl.name, "block": blk, "context": cname, "impl": r_on.json(|s| json!(s))}));
+                    }
+                }
+            }
+        }
+        if subset {
+            in_subset += 1;
+        }
+        let (tb, cb) = gal_world(&off);
+        let (ta, ca) = gal_world(&on);
+        let g = format!(
+            "{{| ow_before := {tb}; ow_after := {ta}; ow_comp_before := {cb}; ow_comp_after := {ca}; ow_renders := [{}] |}}",
+            grs.join("; ")
+        );
+        let desc = json!({"label": set.label, "templates": set.templates, "fused_instructions": fused,
+            "components": on.components.len(), "renders": jrs});
+        let nontrivial = fused >= 3 && on.templates.iter().any(|t| !t.lineage.is_empty());
+        let tag = if subset { "world0-subset:rendered-on-model" } else { "translation-validation-only" };
+        sink.push(g, desc, nontrivial, None, &[tag]);
+    }
+    meta.extra.insert("optworld_sets_rejected".into(), json!(rejected));
+    meta.extra.insert("optworld_real_renders_on_off".into(), json!(renders));
+    meta.extra.insert("optworld_sets_in_world0_subset".into(), json!(in_subset));
+    meta.families.push(sink.finish());
+}
+
 fn main() {
     let args = parse_args();
     silence_panics();
@@ -229,5 +466,6 @@ fn main() {
     meta.extra.insert("oracle_only_evaluations".into(), json!(renders));
     meta.extra.insert("oracle_only_nontrivial".into(), json!(render_nontrivial.min(renders)));
     meta.families.push(opt.finish());
+    optworld_family(&args, &mut rng, &mut meta);
     meta.write(&args.out);
 }
